@@ -1263,6 +1263,14 @@ def validate_delay_get_data(rng, n, res):
     res.extra["translation_validation_delay_get_data"] = stats
 
 
+def _applied(rules, marks, table, ch):
+    """stand-in for `_apply_rules`: the rule set of slot k answers with the table's info id, or MissingInfoError"""
+    k = next(k for k, m in marks.items() if m is rules)
+    if k not in table:
+        raise ch.MissingInfoError()
+    return table[k]
+
+
 def validate_rules(rng, n, res):
     """`_transfer_fields` and `ConnectHelper._apply_rules` of the real package on random rule lists (FromInput / FromOutput
     / FromValue in any order, with and without field lists, missing infos, missing metadata keys) against the translated
@@ -1342,8 +1350,52 @@ def validate_rules(rng, n, res):
         # (the units entry every fresh Info carries: `Info(time=None, grid=None)` has units None under key "units")
         reqs.append({"fn": "ConnectHelper__apply_rules", "args": args, "fresh_units": True})
         reals.append(real)
+    # which rule sets are applied in a call: `_apply_in_info_rules` / `_apply_out_info_rules` with `_apply_rules` replaced by a
+    # table (slot -> info id, absent = MissingInfoError), caching on / off, entries waiting in the cache
+    wr = {"ConnectHelper__apply_in_info_rules": 0, "ConnectHelper__apply_out_info_rules": 0}
+    if all(common.TRANSLATION_STATUS.get(f, {}).get("translated") for f in wr):
+        for _ in range(n):
+            names = rng.sample(range(5), rng.randint(1, 4))
+            table = {k: rng.randint(10, 19) for k in names if rng.random() < 0.7}
+            cache = rng.random() < 0.6
+            waiting = {k: rng.randint(20, 29) for k in names if rng.random() < 0.3}
+            side = rng.choice(["in", "out"])
+            h = ch.ConnectHelper.__new__(ch.ConnectHelper)
+            h.base_logger_name = "finam_verif"
+            h._cache = cache
+            marks = {k: object() for k in names}
+            h._apply_rules = lambda rules, marks=marks, table=table: _applied(rules, marks, table, ch)
+            if side == "in":
+                done = {k: rng.random() < 0.3 for k in names}
+                h._in_info_rules = {str(k): marks[k] for k in names}
+                h._exchanged_in_infos = {str(k): (fm.Info(time=None, grid=None) if done[k] else None) for k in names}
+                h._in_info_cache = {str(k): v for k, v in waiting.items()}
+                fn, call = "ConnectHelper__apply_in_info_rules", h._apply_in_info_rules
+                args = [[[k, 0] for k in names], [[k, [] if done[k] else None] for k in names], cache, [[k, v] for k, v in waiting.items()],
+                        [[k, v] for k, v in table.items()]]
+            else:
+                done = {k: rng.random() < 0.3 for k in names}
+                h._out_info_rules = {str(k): marks[k] for k in names}
+                h._pushed_infos = {str(k): done[k] for k in names}
+                h._out_info_cache = {str(k): v for k, v in waiting.items()}
+                fn, call = "ConnectHelper__apply_out_info_rules", h._apply_out_info_rules
+                args = [[[k, 0] for k in names], [[k, done[k]] for k in names], cache, [[k, v] for k, v in waiting.items()],
+                        [[k, v] for k, v in table.items()]]
+            try:
+                real = {"okw": [[int(k), v] for k, v in call().items()]}
+            except Exception as e:  # noqa
+                real = {"err": err_class(e)}
+            reqs.append({"fn": fn, "args": args})
+            reals.append(real)
+    stats.update(wr)
     for rq, real, lv in zip(reqs, reals, _trdriver([{"fn": r["fn"], "args": r["args"]} for r in reqs])):
         stats[rq["fn"]] += 1
+        if "okw" in real:
+            agree = "ok" in lv and [list(p) for p in lv["ok"]] == real["okw"]
+            if not agree:
+                stats["mismatch"] += 1
+                res.diverge("translation/" + rq["fn"], {"fn": rq["fn"], "args": rq["args"]}, real, lv)
+            continue
         if "err" in real or "err" in lv:
             agree = real.get("err") == lv.get("err")
             if "err" in real:
